@@ -132,6 +132,10 @@ func (t *trzszTransfer) pipelineRecvHashAck(ctx context.Context, cancel context.
 	go func() {
 		defer close(matchChan)
 		matchStep := int64(0)
+		if size <= 0 { // nothing to compare, so the receiver will not acknowledge anything
+			matchChan <- matchStep
+			return
+		}
 		for ctx.Err() == nil {
 			hashAck, err := t.recvHashAck()
 			if err != nil {
